@@ -79,6 +79,21 @@ Theorem C13_not_der_is_unknown : forall data der,
 Proof. intros data der Hder H. rewrite asn1_file_unrecognised by exact Hder. apply describe_err. exact H. Qed.
 Print Assumptions C13_not_der_is_unknown.
 
+(* Conversely, for arbitrary bytes: whatever is reported as "ASN.1 data" is the dump of a well-formed
+   forest whose DER encoding is exactly the input - nothing is skipped, invented or re-nested. *)
+Theorem C13_dump_mirrors_input : forall data,
+  bytes_ok data = true -> i_desc (describe false data) = bs "ASN.1 data" ->
+  exists ts, encode_forest ts = data /\ forest_ok ts = true /\ ts <> [] /\
+             describe false data = Info (bs "ASN.1 data") [] (map (dump false) ts) /\
+             map shape_of_info (i_children (describe false data)) = map shape_of_tlv ts.
+Proof.
+  intros data Hok H. unfold describe in *.
+  destruct (parse_raw false data) as [ts| |] eqn:P; try (vm_compute in H; discriminate).
+  destruct (parse_raw_canonical data ts P Hok) as (E & Hne & Hf & _).
+  exists ts. repeat split; try assumption. cbn [i_children]. apply dump_forest_shape.
+Qed.
+Print Assumptions C13_dump_mirrors_input.
+
 (* labels: a constructed element is shown by its label alone, a primitive one as "label: value";
    the label of a universal tag is its X.680 name, of anything else the decimal tag number *)
 Theorem C13_labels : forall c tag content ch,
